@@ -28,6 +28,8 @@ def rules(ctx):
     c064(ctx)
     c065(ctx)
     c066(ctx)
+    from . import C20
+    C20.c203_departures(ctx)   # a failed write hands the head of the wait list on (a writer queued behind it would sleep for ever)
 
 
 def held_at(ctx, R, f, pts, what, lock=STATE):
